@@ -7,6 +7,7 @@ import (
 	"sort"
 
 	"github.com/cinar/indicator/v2/helper"
+	"github.com/cinar/indicator/v2/trend"
 
 	"verif/harness/internal/gen"
 	"verif/harness/internal/run"
@@ -378,6 +379,20 @@ func c17(ctx *run.Ctx) {
 		ctx.Case(fmt.Sprintf("bst/int8small/%d", b), func(cc *run.Case) { bstRandom(cc, "int8", small8, nh, maxOps) })
 		ctx.Case(fmt.Sprintf("bst/float64small/%d", b), func(cc *run.Case) { bstRandom(cc, "float64", smallf, nh, maxOps) })
 	}
+	// The sliding-window clients of the tree (trend.MovingMax / MovingMin) over
+	// the same pools plus the infinities: window k must yield the extreme of
+	// the multiset {x[k] .. x[k+period-1]}.
+	inf32, inf64 := float32(math.Inf(1)), math.Inf(1)
+	wb := ctx.Pick(4, 120)
+	for b := 0; b < wb; b++ {
+		ctx.Case(fmt.Sprintf("window/int8/%d", b), func(cc *run.Case) { windowExtremes(cc, "int8", i8) })
+		ctx.Case(fmt.Sprintf("window/int32/%d", b), func(cc *run.Case) { windowExtremes(cc, "int32", i32) })
+		ctx.Case(fmt.Sprintf("window/int64/%d", b), func(cc *run.Case) { windowExtremes(cc, "int64", i64) })
+		ctx.Case(fmt.Sprintf("window/int/%d", b), func(cc *run.Case) { windowExtremes(cc, "int", in) })
+		ctx.Case(fmt.Sprintf("window/float32/%d", b), func(cc *run.Case) { windowExtremes(cc, "float32", append([]float32{-inf32, inf32}, f32...)) })
+		ctx.Case(fmt.Sprintf("window/float64/%d", b), func(cc *run.Case) { windowExtremes(cc, "float64", append([]float64{-inf64, inf64}, f64...)) })
+		ctx.Case(fmt.Sprintf("window/float64small/%d", b), func(cc *run.Case) { windowExtremes(cc, "float64", smallf) })
+	}
 	// Exhaustive small scope: every history of length <= L over 3 letters.
 	maxL := ctx.Pick(5, 7)
 	for L := 1; L <= maxL; L++ {
@@ -412,6 +427,58 @@ func c17(ctx *run.Ctx) {
 				cc.Count("ring_histories", 1)
 			}
 		})
+	}
+}
+
+// windowExtremes drives trend.MovingMax and trend.MovingMin (the tree's
+// sliding-window clients) and compares every emitted value with the extreme
+// of the window's multiset.
+func windowExtremes[T helper.Number](cc *run.Case, typ string, pool []T) {
+	r := cc.R
+	for h := 0; h < 40; h++ {
+		period := r.Range(1, 7)
+		n := r.Range(0, 26)
+		sub := pool
+		if r.Intn(2) == 0 { // few distinct values: many duplicates inside one window
+			sub = []T{pool[r.Intn(len(pool))], pool[r.Intn(len(pool))], pool[r.Intn(len(pool))]}
+		}
+		xs := make([]T, n)
+		for i := range xs {
+			xs[i] = sub[r.Intn(len(sub))]
+		}
+		desc := map[string]any{"type": typ, "period": period, "input": fmt.Sprint(xs)}
+		cc.Desc(desc)
+		gotMax := helper.ChanToSlice(trend.NewMovingMaxWithPeriod[T](period).Compute(helper.SliceToChan(xs)))
+		gotMin := helper.ChanToSlice(trend.NewMovingMinWithPeriod[T](period).Compute(helper.SliceToChan(xs)))
+		want := max(0, n-period+1)
+		if len(gotMax) != want || len(gotMin) != want {
+			cc.Viol("", fmt.Sprintf("MovingMax/MovingMin[%s] period %d over %d values emitted %d / %d values, expected %d", typ, period, n, len(gotMax), len(gotMin), want), desc)
+			return
+		}
+		for k := 0; k < want; k++ {
+			hi, lo := xs[k], xs[k]
+			for _, v := range xs[k : k+period] {
+				if v > hi {
+					hi = v
+				}
+				if v < lo {
+					lo = v
+				}
+			}
+			if gotMax[k] != hi {
+				cc.Viol("", fmt.Sprintf("MovingMax[%s] period %d: window %d = %v yields %v, its maximum is %v", typ, period, k, xs[k:k+period], gotMax[k], hi), desc)
+				return
+			}
+			if gotMin[k] != lo {
+				cc.Viol("", fmt.Sprintf("MovingMin[%s] period %d: window %d = %v yields %v, its minimum is %v", typ, period, k, xs[k:k+period], gotMin[k], lo), desc)
+				return
+			}
+		}
+		cc.Count("window_values_compared", int64(2*want))
+		cc.Count("window_histories", 1)
+		if want > 1 {
+			cc.Distinct(fmt.Sprintf("window/%s/%s/%d", typ, cc.Label, h))
+		}
 	}
 }
 
